@@ -1,7 +1,9 @@
+_compose = H("verifH_C01_compose", "bounded composition from the real initial state (InitSession): k operations out of {publish QoS1/2, connection loss, real connect+resend, PUBACK, PUBREC, PUBCOMP}, optional restart (AdoptSession), then observe + drain against the shadow model", T({"steps":4}), T({"steps":6}, time_sec=3000, maxpaths=5000000), ("end","restarted"))
 S["C01"] = dict(title="Accepted QoS>=1 publishes are retransmitted until acknowledged, never lost", technique=TECH+"; one operation from an arbitrary representation-invariant state (ring position free), observed through resend", harnesses=[
     H("verifH_C01_accept", "L01.a accept: Save of the stamped packet, enqueue, first write or exactly one error; failure leaves no trace", T({"W":1,"wfaults":2,"storefaults":1}), T({"W":2,"wfaults":2,"storefaults":1}, time_sec=1500), ("refused-max","save-failed","enqueued-offline","written","write-broke")),
     H("verifH_C01_ack", "L01.c/L03.a PUBACK/PUBREC/PUBCOMP with arbitrary identifier", T({"W":2,"wfaults":1,"storefaults":1}), T({"W":3,"wfaults":2,"storefaults":1}, time_sec=1500), ("puback-applied","puback-delete-failed","puback-rejected","pubcomp-applied","pubcomp-delete-failed","pubcomp-rejected","pubrec-applied","pubrec-rejected","pubrec-save-failed","pubrec-write-failed")),
     H("verifH_C01_resend", "L01.b resend under write and Load faults", T({"W":2,"wfaults":2,"storefaults":1}), T({"W":3,"wfaults":2,"storefaults":1}, time_sec=1500), ("complete","failed")),
+    _compose,
   ],
   assumptions=["pre-states are arbitrary states satisfying INV-out1/out2/seq of DESIGN 4.1 (counters < 2^62, ring position free); the induction over histories is a paper step",
     "Persistence operations fail without effect (documented contract); Load returns a private copy",
@@ -60,6 +62,7 @@ S["C07"] = dict(title="Inbound acknowledgements go out only after the applicatio
   outside=["concurrent outbound requests (wire integrity is C08's token argument)","write failures of the acknowledgement itself (covered in C10's harness)"])
 S["C02"] = dict(title="Restart resumes exactly the unacknowledged set, at any stop point, repeatedly", technique=TECH+"; AdoptSession run on an arbitrary store content a stop can leave (ring positions, storage sequence numbers and List order free), observed through resend, two generations", harnesses=[
     H("verifH_C02_adopt", "adopt an arbitrary PINV store -> observe; publish; stop; adopt again -> observe", T({"shapes":6}), T({"shapes":10}, time_sec=2400), ("adopted","adopted-twice","drained","adopted-twice-pubrec")),
+    _compose,
   ],
   assumptions=["PINV (DESIGN 4.1): what a stop can leave is one contiguous run per kind (QoS1 PUBLISH, PUBREL, QoS2 PUBLISH), the PUBREL run directly before the QoS2 PUBLISH run, storage sequence numbers ascending within a run; that every operation re-establishes it is shown by the C01 harnesses (the record written/deleted per operation) — paper step",
     "the store honours the Persistence contract (FileSystem's adherence under stops is C19)", "sort.Slice is modelled as insertion sort calling the real less closure"],
